@@ -249,6 +249,17 @@ func (g *gen) scalar() *big.Int {
 	return v.Add(v, one)
 }
 
+// a seeded random scalar whose public point has a 31-byte X (wantX) or a 31-byte Y
+func (g *gen) seededShortPub(wantX bool) *big.Int {
+	for {
+		k := g.scalar()
+		x, y := sm2.P256Sm2().ScalarBaseMult(k.Bytes())
+		if wantX && len(x.Bytes()) == 31 || !wantX && len(y.Bytes()) == 31 {
+			return k
+		}
+	}
+}
+
 // exactly nb significant bytes (nb < 32)
 func (g *gen) shortScalar(nb int) *big.Int {
 	b := g.r.Bytes(nb)
@@ -456,8 +467,21 @@ func (g *gen) sessions(nRandom int) {
 		}
 		g.session("sess:all-pubs-short:"+strings.Join(which, ","), s)
 	}
+	// e2) the same with scalars searched from the SEED (one leading zero byte in X resp. Y: one hit per 256 trials), so
+	// that different seeds exercise different short public points; the 30-byte classes stay hard-coded (1/65536)
+	for pos := 0; pos < 4; pos++ {
+		for _, wantX := range []bool{true, false} {
+			s := g.rndSmall()
+			s.k[pos] = g.seededShortPub(wantX)
+			name := "Y31"
+			if wantX {
+				name = "X31"
+			}
+			g.session(fmt.Sprintf("sess:pub(%s)-%s-seeded", posNames[pos], name), s)
+		}
+	}
 	// f) shared point V with a leading zero byte
-	for _, s := range g.shortV(3, 3) {
+	for _, s := range g.shortV(5, 5) {
 		g.session("sess:V-short-"+s.vShort, s)
 	}
 	// g) everything random
